@@ -75,6 +75,12 @@ func (a *AReq) Wire(r *mon.Rand) []byte {
 					ks = append(ks, t.K)
 				}
 			}
+			if len(ks) >= 2 && r.Chance(3) {
+				// the announcement in two lines (several lines of a list field are one list)
+				k := 1 + r.Intn(len(ks)-1)
+				extra = append(extra, Field{"Trailer", strings.Join(ks[:k], ", ")})
+				ks = ks[k:]
+			}
 			extra = append(extra, Field{"Trailer", strings.Join(ks, r.Str(", ", ","))})
 		}
 	}
